@@ -220,11 +220,11 @@ type siteCase struct {
 	src  string // ing | svc : the object that carries the annotation
 	form string // n own other file secother secown
 	set  string // static + crt ca pw svc, each 0|1
-	fu   bool   // the foreign namespace uses its own objects through its own ingress (converted first)
+	fu   string // 0: first reconciliation; 1: namespace b's own ingress was converted first, a is added by a partial sync; 2: a first reconciliation ran with every key = allow, then the ConfigMap changed
 }
 
 func (sc siteCase) args() string {
-	return strings.Join([]string{"site", sc.site, sc.src, sc.form, sc.set, b2s(sc.fu)}, " ")
+	return strings.Join([]string{"site", sc.site, sc.src, sc.form, sc.set, sc.fu}, " ")
 }
 
 // kind of object the site refers to: crt ca pw svc
@@ -382,13 +382,21 @@ func runSite(sc siteCase, withForeign bool) (res siteResult) {
 	}
 	// namespace b's own, legitimate use of its own objects
 	crtName := "crt"
-	bIng := ingress("b", "ing", "b.local", "authsvc", map[string]string{
+	bAnn := map[string]string{
 		pfx + "auth-secret":             "pw",
 		pfx + "auth-tls-secret":         "ca",
 		pfx + "secure-backends":         "true",
 		pfx + "secure-crt-secret":       "crt",
 		pfx + "secure-verify-ca-secret": "ca",
-	}, &crtName)
+	}
+	bTLS := &crtName
+	if sc.site == "gwcert" {
+		// a Gateway change asks for a full sync, which converts b's ingress again in the same
+		// reconciliation: keep b/crt out of b's own ingress so that a read of it is the Gateway's
+		delete(bAnn, pfx+"secure-crt-secret")
+		bTLS = nil
+	}
+	bIng := ingress("b", "ing", "b.local", "authsvc", bAnn, bTLS)
 	// namespace a's ingress with the reference under test
 	aAnn := map[string]string{}
 	if sc.src == "ing" {
@@ -421,7 +429,20 @@ func runSite(sc siteCase, withForeign bool) (res siteResult) {
 			res.log = append(env.Logger.Lines, fmt.Sprint(r))
 		}
 	}()
-	if sc.fu {
+	if sc.fu == "2" {
+		allow := map[string]string{}
+		for _, k := range cmKeys {
+			allow[k] = "allow"
+		}
+		add(aObjs...)
+		env.Sync(&convtypes.ChangedObjects{GlobalConfigMapDataNew: allow})
+		env.Commit()
+		env.Cli.Reads()
+		// the operator edits the ConfigMap: what the watchers deliver is Cur = old data, New = new data
+		env.Sync(&convtypes.ChangedObjects{GlobalConfigMapDataCur: allow, GlobalConfigMapDataNew: cm,
+			Links:   convtypes.TrackingLinks{convtypes.ResourceConfigMap: []string{"ingress-controller/haproxy-ingress"}},
+			Objects: []string{"update/ConfigMap:ingress-controller/haproxy-ingress"}})
+	} else if sc.fu == "1" {
 		add(bIng)
 		env.Sync(&convtypes.ChangedObjects{GlobalConfigMapDataNew: cm})
 		env.Commit()
@@ -629,7 +650,7 @@ func siteForms(site string) []string {
 	if siteKind(site) == "svc" {
 		return []string{"n", "own", "other"}
 	}
-	if siteKind(site) == "pw" {
+	if siteKind(site) == "pw" || site == "gwcert" {
 		return []string{"n", "own", "other", "file", "secother", "secown"}
 	}
 	return []string{"n", "own", "other", "file", "fileb", "secother", "secown"}
@@ -645,25 +666,28 @@ func allSettings() []string {
 
 func corpus() {
 	// suspected (a): secure-crt-secret / secure-verify-ca-secret hand the TARGET namespace to the getter
-	emitSite(siteCase{"securecrt", "ing", "other", "00000", false})
-	emitSite(siteCase{"secureca", "svc", "other", "00000", false})
+	emitSite(siteCase{"securecrt", "ing", "other", "00000", "0"})
+	emitSite(siteCase{"secureca", "svc", "other", "00000", "0"})
 	// suspected (b): auth-url svc://other/name:port resolves through FindBackend
-	emitSite(siteCase{"authurl", "ing", "other", "00000", true})
-	emitSite(siteCase{"authurlfe", "ing", "other", "00000", true})
+	emitSite(siteCase{"authurl", "ing", "other", "00000", "1"})
+	emitSite(siteCase{"authurlfe", "ing", "other", "00000", "1"})
 	// auth-secret: an existing userlist of another namespace is reused without asking the cache
-	emitSite(siteCase{"authsecret", "ing", "other", "00000", true})
+	emitSite(siteCase{"authsecret", "ing", "other", "00000", "1"})
 	// file:// in spec.tls[].secretName
-	emitSite(siteCase{"tls", "ing", "file", "00000", false})
-	emitSite(siteCase{"tlstcp", "ing", "file", "00000", false})
-	emitSite(siteCase{"gwcert", "ing", "file", "00000", false})
-	emitSite(siteCase{"gwcert", "ing", "other", "00000", false})
+	emitSite(siteCase{"tls", "ing", "file", "00000", "0"})
+	emitSite(siteCase{"tlstcp", "ing", "file", "00000", "0"})
+	emitSite(siteCase{"gwcert", "ing", "file", "00000", "0"})
+	emitSite(siteCase{"gwcert", "ing", "other", "00000", "0"})
 	// file:// pointing at the controller's own copy of another namespace's CA bundle
-	emitSite(siteCase{"authtls", "ing", "fileb", "00000", true})
+	emitSite(siteCase{"authtls", "ing", "fileb", "00000", "1"})
+	// the Gateway converter runs before buildGlobalDynamic: allow -> deny is not seen by certificateRefs
+	emitSite(siteCase{"gwcert", "ing", "other", "00000", "2"})
+	emitSite(siteCase{"gwcert", "ing", "other", "01000", "0"})
 	// each key opens only its kind
-	emitSite(siteCase{"tls", "ing", "other", "00110", false})
-	emitSite(siteCase{"authtls", "ing", "other", "01011", false})
-	emitSite(siteCase{"authsecret", "ing", "other", "01101", false})
-	emitSite(siteCase{"authurl", "ing", "other", "11110", false})
+	emitSite(siteCase{"tls", "ing", "other", "00110", "0"})
+	emitSite(siteCase{"authtls", "ing", "other", "01011", "0"})
+	emitSite(siteCase{"authsecret", "ing", "other", "01101", "0"})
+	emitSite(siteCase{"authurl", "ing", "other", "11110", "0"})
 }
 
 func TestC09(t *testing.T) {
@@ -694,7 +718,7 @@ func TestC09(t *testing.T) {
 			case f[1] == "dyn" && len(f) == 4:
 				emitDyn(f[2] == "1", f[3])
 			case f[1] == "site" && len(f) == 7:
-				emitSite(siteCase{f[2], f[3], f[4], f[5], f[6] == "1"})
+				emitSite(siteCase{f[2], f[3], f[4], f[5], f[6]})
 			}
 		}
 		return
@@ -788,7 +812,7 @@ func TestC09(t *testing.T) {
 		for _, src := range siteSources(site) {
 			for _, form := range siteForms(site) {
 				for _, set := range allSettings() {
-					for _, fu := range []bool{false, true} {
+					for _, fu := range []string{"0", "1", "2"} {
 						emitSite(siteCase{site, src, form, set, fu})
 					}
 				}
